@@ -28,6 +28,7 @@ import (
 	"golang.org/x/text/language"
 
 	"seehuhn.de/go/geom/matrix"
+	"seehuhn.de/go/postscript/cid"
 	"seehuhn.de/go/postscript/funit"
 	"seehuhn.de/go/sfnt"
 	"seehuhn.de/go/sfnt/cff"
@@ -308,26 +309,101 @@ func c01Generated(r *run.Run) {
 			if len(spec.Devs) > 0 || spec.Gsub != "" || spec.Gpos != "" {
 				c.Nontrivial()
 			}
-			sig := spec.Kind
-			w0, err := writeFont(f)
-			if err != nil {
-				c.Fail("C01.write", sig, "Write(F) failed: %v", err)
-				return
+			c01Cycle(c, f, spec.Kind, spec.Devs)
+		})
+}
+
+// c01Cycle: Read(Write(F)) == normalForm(F), then the fixed-point clauses on the re-read font.
+func c01Cycle(c *explore.Ctx, f *sfnt.Font, sig string, devs any) {
+	w0, err := writeFont(f)
+	if err != nil {
+		c.Fail("C01.write", sig, "Write(F) failed: %v", err)
+		return
+	}
+	w0b, _ := writeFont(f)
+	if !bytes.Equal(w0, w0b) {
+		c.FailObserved("C01.deterministic", sig, "writing the same font twice gives different bytes: %s", byteDiff(w0, w0b))
+	}
+	f1, err := sfnt.Read(bytes.NewReader(w0))
+	if err != nil {
+		c.Fail("C01.read", sig, "Read(Write(F)) fails: %v (deviations %v)", err, devs)
+		return
+	}
+	if d := fontDiff(normalForm(f), f1, 1.0/65536); d != "" {
+		c.Fail("C01.roundtrip", sig+"/"+diffSig(d), "Read(Write(F)) differs from normalForm(F) (deviations %v):\n%s", devs, trimDiff(d))
+	}
+	fixedPointChecks(c, sig, f1)
+	c.Outcome(w0)
+}
+
+// c01Sizes sweeps the sizes that decide offset widths and table formats inside a whole font: string
+// lengths (CFF String and Name INDEX offset sizes, name table storage) and the number of glyphs
+// (CharStrings INDEX, charset and FDSelect formats, loca, hmtx), one step at a time.
+func c01Sizes(r *run.Run) {
+	sweeps := []struct {
+		name string
+		n    int
+	}{{"copyright length", 601}, {"trademark length with a 200-character copyright", 200}, {"family name length", 120}, {"extra glyphs", 300}}
+	if !r.Quick() {
+		sweeps[0].n, sweeps[3].n = 2001, 1200
+	}
+	r.Explore(explore.Config{Name: "C01.sizes", Deadline: r.PartDeadline(0.3)},
+		fmt.Sprintf("size sweeps on a 6-glyph base font of each outline kind, every value in the range: copyright length 0..%d, trademark length 0..%d next to a 200-character copyright, family name length 1..%d, 0..%d extra glyphs with generated names/CIDs; same round-trip and fixed-point oracle as C01.generated", sweeps[0].n-1, sweeps[1].n-1, sweeps[2].n, sweeps[3].n-1),
+		func(c *explore.Ctx) {
+			kind := c.Choose(3, "outline kind")
+			sw := c.Choose(len(sweeps), "sweep")
+			v := c.Choose(sweeps[sw].n, sweeps[sw].name)
+			f, _ := FontFromChoices(gen.FontOpts{NoMeta: true, Compact: true}, kind, 2)
+			fill := func(n int) string {
+				b := make([]byte, n)
+				for i := range b {
+					b[i] = "Abc dEf, "[i%9]
+				}
+				return string(b)
 			}
-			w0b, _ := writeFont(f)
-			if !bytes.Equal(w0, w0b) {
-				c.FailObserved("C01.deterministic", sig, "writing the same font twice gives different bytes: %s", byteDiff(w0, w0b))
+			switch sw {
+			case 0:
+				f.Copyright = fill(v)
+			case 1:
+				f.Copyright = fill(200)
+				f.Trademark = fill(v)
+			case 2:
+				f.FamilyName = strings.TrimSpace(fill(v+1)) + "x"
+			case 3:
+				switch ol := f.Outlines.(type) {
+				case *glyf.Outlines:
+					o := *ol
+					for i := 0; i < v; i++ {
+						o.Glyphs = append(o.Glyphs, ol.Glyphs[1+i%5])
+						o.Widths = append(o.Widths, funit.Int16(300+i))
+						if o.Names != nil {
+							o.Names = append(o.Names, fmt.Sprintf("extra%04d", i))
+						}
+					}
+					f.Outlines = &o
+				case *cff.Outlines:
+					o := *ol
+					for i := 0; i < v; i++ {
+						g := *ol.Glyphs[1+i%5]
+						if !ol.IsCIDKeyed() {
+							g.Name = fmt.Sprintf("extra%04d", i)
+						}
+						g.Width = float64(300 + i)
+						o.Glyphs = append(o.Glyphs, &g)
+						if ol.IsCIDKeyed() {
+							o.GIDToCID = append(o.GIDToCID, o.GIDToCID[len(o.GIDToCID)-1]+1+cid.CID(i%3/2))
+						}
+					}
+					if !ol.IsCIDKeyed() {
+						o.Encoding = cff.StandardEncoding(o.Glyphs)
+					}
+					f.Outlines = &o
+				}
 			}
-			f1, err := sfnt.Read(bytes.NewReader(w0))
-			if err != nil {
-				c.Fail("C01.read", sig, "Read(Write(F)) fails: %v (deviations %v)", err, spec.Devs)
-				return
-			}
-			if d := fontDiff(normalForm(f), f1, 1.0/65536); d != "" {
-				c.Fail("C01.roundtrip", sig+"/"+diffSig(d), "Read(Write(F)) differs from normalForm(F) (deviations %v):\n%s", spec.Devs, trimDiff(d))
-			}
-			fixedPointChecks(c, sig, f1)
-			c.Outcome(w0)
+			desc := fmt.Sprintf("%s, %s = %d", gen.KindNames[kind], sweeps[sw].name, v)
+			c.Sample(func() any { return desc })
+			c.Nontrivial()
+			c01Cycle(c, f, gen.KindNames[kind]+" "+sweeps[sw].name, desc)
 		})
 }
 
@@ -447,6 +523,7 @@ func init() {
 			"domain: at least one timestamp set; flag/weight combinations are compared through the documented naming rules (Subfamily); integer advance widths (fractions: C04/C13)",
 			"glyph coordinates of generated CFF fonts are 16.16-representable",
 		}
+		c01Sizes(r)
 		c01Generated(r)
 		c01Accepted(r)
 		c01MapOrder(r)
